@@ -105,7 +105,7 @@ Proof.
     - rewrite Forall_forall in HA. exact (HA _ Hin).
     - rewrite Hd. exact I. }
   destruct a; try contradiction; cbn; (split; [exact I|]); (split; [|intros; discriminate]);
-    apply frame_iff; cbn; repeat split; auto; destruct (m_ext m); reflexivity.
+    apply frame_iff; cbn; repeat split; auto; try (intros; discriminate); unfold ext_fill_ok; cbn; destruct (m_ext m); reflexivity.
 Qed.
 
 Example C19_chain_nonvacuous :
